@@ -48,7 +48,7 @@ static void partition_T(const CaseCfg& c, Rng& rng, Outcome& o) {
     bool perm   = ref16::same_multiset(input, out, TotalLess(), &diff);
     if (!perm)
       o.violation("C16:partition:not-permutation",
-                  w.kv("what", "output is not a permutation of the input").kv("first_diff_rank", diff).str());
+                  J(w).kv("what", "output is not a permutation of the input").kv("first_diff_rank", diff).str());
     if (!v.partitioned) {
       // Observable classes of an invalid result (so that different defects get different keys):
       //  leftovers-not-cleaned-up: positions were left unexamined by the parallel phase, yet the caller-side
@@ -81,7 +81,7 @@ static void partition_T(const CaseCfg& c, Rng& rng, Outcome& o) {
           cls = ":leftover-span-misses-boundary";
       }
       o.violation("C16:partition:not-partitioned" + cls,
-                  w.kv("what", "returned point is not a partition point of the output")
+                  J(w).kv("what", "returned point is not a partition point of the output")
                       .kv("returned", ret).kv("wrong_side_position", v.badIndex).kv("pred_there", v.badValue)
                       .kv("runs", v.runs).kv("first_run_true", v.firstRunTrue)
                       .kv("run_starts_1", v.boundary[0]).kv("run_starts_2", v.boundary[1]).kv("run_starts_3", v.boundary[2])
@@ -92,6 +92,8 @@ static void partition_T(const CaseCfg& c, Rng& rng, Outcome& o) {
   o.add("partition_serial_cleanup_calls", serial);
   o.add("partition_no_leftover_cases", (c.n > 1024 && allExamined) ? 1 : 0);
   o.add("partition_true_elements", nTrue);
+  o.add("partition_cases_2plus_threads_claimed_blocks", m.threadsUsed() >= 2);
+  o.add("partition_cases_4plus_threads_claimed_blocks", m.threadsUsed() >= 4);
 }
 
 void run_partition(const CaseCfg& c, Rng& rng, Outcome& o) {
